@@ -457,6 +457,9 @@ for st in ("nocheck", "check"):
     ob("C01.king." + st, ["C01"], "chess-movegen", _PC + "c01_king_" + st, kind="complete", flags="func", timeout=2400, mem_gb=6, part=(0 if st == "nocheck" else 1), stubs=["chess_lookup::king_moves", "Board::is_legal_king_position -> contract stub (C01.king_position)"],
        functions=["King::king_legals", "King::pseudo_legals"],
        contract="{one king each, <=16, rights consistent, side not to move not in check, checkers non-empty <=> in check} king_legals, %s, all 16 rights values, any mask: for EVERY destination d: (king,d) generated iff legal(P,(king,d)) (and d in mask for ordinary steps); castling: right present, path empty, king not in check, transit and target squares not attacked; at most one entry, never empty" % st)
+ob("C01.king.castle", ["C01"], "chess-movegen", _PC + "c01_king_castle", kind="complete", flags="func", timeout=2400, mem_gb=8, stubs=["chess_lookup::king_moves", "Board::is_legal_king_position -> contract stub weakened to the four consulted squares (C01.king_position)"],
+   functions=["King::king_legals::<NO_CHECK> (castling part)"],
+   contract="{one king each, <=16, rights consistent, kings not adjacent, not in check} both colours, all 16 rights values: castling move generated iff legal: right present, squares between king and rook empty, king square / transit square / destination not attacked")
 ob("C01.check_mask", ["C01", "C07"], "chess-movegen", _PC + "c01_check_mask", kind="complete", flags="func", timeout=2400, mem_gb=6, stubs=["chess_lookup::between"],
    functions=["check_mask"], contract="check_mask::<true> == between(king, checker) + checker with exactly one checker (its assert_eq! holds); check_mask::<false> == everything")
 ob("C01.is_legal", ["C01", "C02"], "chess-movegen", "iter::kani_verif_c10::c01_is_legal", kind="bounded", bound="move list of <= 2 entries x <= 3 destinations (the `any` loop)", flags="full", timeout=1500, mem_gb=6,
@@ -488,10 +491,10 @@ _GROUND = [("standard", "standard position"), ("kiwipete", "kiwipete, all rights
            ("rights_kq", "rights Kq, clocks 100/9999, Black to move"), ("rights_qk", "rights Qk, clocks 9/10"), ("runs", "empty runs 1..7, every black piece kind, clocks 1234/567"), ("check", "side to move in check, pinned piece, right K")]
 _GROUND += [("r%02d" % i, "castling subset %d" % i) for i in (0, 1, 2, 3, 4, 5, 7, 8, 10, 11, 12, 13, 14)]
 for _n, _d in _GROUND:
-    ob("C05.ground." + _n, ["C05", "C06"], "chess-movegen", _FN + "c05_ground_" + _n, kind="ground", flags="full", timeout=1500, mem_gb=4,
+    ob("C05.ground." + _n, ["C05", "C06"] if _n in ("standard", "check", "ep_white") else ["C05"], "chess-movegen", _FN + "c05_ground_" + _n, kind="ground", flags="full", timeout=1500, mem_gb=4,
        functions=["fen::parse_fen", "<Board as Display>::fmt", "<CastleRights as Debug>::fmt", "Board::validate", "Board::update_pin_info"],
        contract="ground round trip (%s): parse_fen(text) == Ok(b); Display(b) == text byte for byte; the spec writer applied to view(b) == text (b denotes exactly the described position); hash field == from-scratch piece hash; cached sets == spec; position playable" % _d)
-for _off, _what in ((0, "first piece letter"), (2, "first rank separator"), (17, "separator after the placement"), (18, "side to move"), (20, "castling field"), (22, "en-passant field"), (24, "half-move clock"), (26, "full-move number")):
+for _off, _what in ((17, "separator after the placement"), (18, "side to move"), (20, "castling field"), (22, "en-passant field"), (24, "half-move clock"), (26, "full-move number")):
     ob("C06.window.%02d" % _off, ["C06"], "chess-movegen", _FN + "c06_w_%02d" % _off, kind="bounded", bound="one arbitrary byte at offset %d (%s) of the 27-byte text 'k7/8/8/8/8/8/8/K7 w - - 0 1'" % (_off, _what), flags="full", timeout=1500, mem_gb=5,
        functions=["fen::parse_fen", "Board::validate"], contract="all 256 values of that byte: parse_fen returns (no panic / overflow / out-of-bounds); an accepted board passes validate()")
 ob("C05.constructors", ["C05", "C04"], "chess-movegen", _FN + "c05_constructors", kind="ground", flags="full", timeout=1500, mem_gb=4, functions=["Board::standard", "Board::builder", "BoardBuilder::place", "BoardBuilder::castle_rights", "BoardBuilder::build", "fen::parse_fen"],
@@ -551,7 +554,7 @@ for _p in ("C01", "C05", "C06"):
     PROPERTY_META[_p]["claim"] = False
 
 # C01 quick-tier partition into four slices (each body obligation costs 8-12 min and 5-15 GB)
-_C01_PART = {"knight.nocheck.body": 0, "bishop.check.body": 0, "pawn.skipped": 0, "king.nocheck": 0,
+_C01_PART = {"knight.nocheck.body": 0, "bishop.check.body": 0, "pawn.skipped": 0, "king.nocheck": 0, "king.castle": 2,
              "bishop.nocheck.body": 1, "rook.check.body": 1, "knight.skipped": 1, "king.check": 1,
              "rook.nocheck.body": 2, "queen.check.body": 2, "pawn.nocheck.body": 2, "bishop.skipped": 2,
              "queen.nocheck.body": 3, "knight.check.body": 3, "pawn.check.body": 3, "rook.skipped": 3, "queen.skipped": 3}
